@@ -407,7 +407,6 @@ class IntroVisitorIndirect(ast.NodeVisitor):
         # as another function, then a mismatch will happen.
         if (
             node.id in self._start_mod.__dict__
-            and node.id not in python_builtin_names
             and LocalVar(node.id) not in self._function_var_names
             and LocalVar(node.id) not in self._store_names
         ):
